@@ -124,6 +124,9 @@ class Adapter:
         L = self.langs[lang]
         ctx = materialise.lang_ctx(L, key=lang)
         ab = case['abs']
+        if len(ab['assets']) % 2 == 0:
+            # every second case: explicit names carry a blank at either end (legal in every layout, kept by every loader)
+            ab = dict(ab, assets=[dict(a, name=(' ' + a['name'] + ' ') if a['name'].startswith('n1') else a['name']) for a in ab['assets']])
         res = {'steps': 0, 'div': [], 'features': []}
         if case.get('hist') and case['hist'][-1]['act']['res'] == 'collide':
             return res
